@@ -7,6 +7,41 @@ from model import norm_const
 CMP_OPS = {"Eq", "Ne", "Lt", "Le", "Gt", "Ge"}
 
 
+STRIP_IDENT = {
+    ("Option", "copied"), ("Option", "cloned"), ("Into", "into"), ("From", "from"),
+    ("Deref", "deref"), ("DerefMut", "deref_mut"), ("AsRef", "as_ref"), ("Borrow", "borrow"),
+    ("Option", "as_ref"), ("Result", "as_ref"), ("Option", "as_mut"), ("Result", "as_mut"),
+    ("Clone", "clone"), ("ToOwned", "to_owned_"), ("Option", "as_deref"),
+}
+
+
+def tproj(t, path):
+    """the sub-value of tree t at projection path"""
+    path = tuple(path)
+    if not path:
+        return t
+    k = t[0]
+    if k == "place":
+        return ("place", t[1], t[2], tuple(t[3]) + path)
+    if k == "call":
+        return ("call", t[1], t[2], tuple(t[3]) + path, t[4])
+    if k == "agg":
+        # project into the aggregate where possible
+        step = path[0]
+        if step.startswith("v:"):
+            return tproj(t, path[1:]) if t[1].endswith("::" + step[2:]) or "::" not in t[1] else ("proj", t, path)
+        if step.startswith("f:") and step[2:].isdigit() and int(step[2:]) < len(t[2]):
+            return tproj(t[2][int(step[2:])], path[1:])
+        if step.startswith("u:") and int(step[2:]) < len(t[2]):
+            return tproj(t[2][int(step[2:])], path[1:])
+        return ("proj", t, path)
+    if k == "phi":
+        return ("phi", tuple(tproj(x, path) for x in t[1]))
+    if k == "proj":
+        return ("proj", t[1], tuple(t[2]) + path)
+    return ("proj", t, path)
+
+
 def strip_ovf(op):
     for suf in ("WithOverflow", "Unchecked"):
         if op.endswith(suf):
@@ -62,6 +97,16 @@ def tree(ctx, origin, depth=0, resolve_places=True):
                 if alts:
                     return ("phi", tuple(sorted(alts, key=repr)))
         args = tuple(trees(ctx, ctx.org.operand(a), depth + 1) for a in t["args"])
+        if tag in STRIP_IDENT and args:
+            # value-preserving wrapper: the result denotes the same abstract value as its argument
+            return tproj(args[0], path)
+        if tag == ("Try", "branch") and args and path[:2] == ("v:Continue", "f:0"):
+            aty = ""
+            a0 = t["args"][0]
+            if a0["k"] in ("copy", "move"):
+                aty = ctx.body.locals[a0["place"]["l"]]["ty"]["peeled"]
+            ok = "v:Ok" if "result::Result" in aty else "v:Some"
+            return tproj(args[0], (ok, "f:0") + tuple(path[2:]))
         return ("call", tag, args, path, root[1])
     if k == "expr":
         rv = ctx.org.stmt(root[1], root[2])["rv"]
@@ -86,7 +131,9 @@ def tree(ctx, origin, depth=0, resolve_places=True):
         kind = rv["agg"]
         if kind == "adt":
             kind = rv["adt"].split("::")[-1] + "::" + rv["variant_name"]
-        return ("agg", kind, ops, path)
+        elif kind == "closure":
+            kind = "closure:" + rv["closure"]
+        return tproj(("agg", kind, ops, ()), path) if path else ("agg", kind, ops, ())
     if k == "counter":
         return ("counter", root[1])
     return ("opaque", repr(root))
@@ -164,6 +211,10 @@ def lin(t):
                 return {k: v * c for k, v in a.items()}
     if t[0] == "un" and t[1] in ("PtrMetadata",):
         return {("len", t[2]): Fraction(1)}
+    if t[0] == "call" and t[1][1] in ("checked_sub", "wrapping_sub", "saturating_sub") and len(t[2]) == 2 and \
+            tuple(t[3]) in (("v:Some", "f:0"), ()):
+        # a - b (checked_sub's payload exists only when a >= b)
+        return lin(("bin", "Sub", t[2][0], t[2][1]))
     return {t: Fraction(1)}
 
 
@@ -219,19 +270,20 @@ def guards(ctx, bb):
                 if edge_dominates_multi(body, d, tgt, bb, [a for a in arms if a[1] == tgt], t["otherwise"]):
                     hits.append(val)
             cond = operand_tree(ctx, t["discr"])
+            dty = t.get("discr_ty", "bool")
             if hits:
                 for v in hits[:1]:
-                    out.append((cond, v, d))
+                    out.append((cond, v, d, dty))
             else:
                 # the otherwise edge?
                 other = t["otherwise"]
                 if all(a[1] != other for a in arms) and edge_dominates(body, d, other, bb):
-                    out.append((cond, ("not", tuple(a[0] for a in arms)), d))
+                    out.append((cond, ("not", tuple(a[0] for a in arms)), d, dty))
         elif t["k"] == "assert":
             # passing an assert means cond == expected
             if d != bb:
                 cond = operand_tree(ctx, t["cond"])
-                out.append((cond, "1" if t["expected"] else "0", d))
+                out.append((cond, "1" if t["expected"] else "0", d, "bool"))
     return out
 
 
@@ -241,10 +293,29 @@ def edge_dominates_multi(body, src, dst, target, same_target_arms, otherwise):
     return edge_dominates(body, src, dst, target)
 
 
-def normalise_guard(cond, value):
+def _boolish(t):
+    """the tree denotes a bool (comparison, negation, bool-returning call) rather than an integer"""
+    if t[0] == "bin":
+        return t[1] in CMP_OPS or t[1] in ("BitAnd", "BitOr", "BitXor") and _boolish(t[2])
+    if t[0] == "un":
+        return t[1] == "Not" and _boolish(t[2])
+    if t[0] in ("call", "place", "ovf", "phi", "const"):
+        return t[0] != "const" or t[1] in ("true", "false")
+    return True
+
+
+def normalise_guard(cond, value, dty="bool"):
     """turn (cond, value) into (op, a, b) comparison facts where possible: returns list of
     ('Lt'|'Le'|'Eq'|'Ne'|'Ge'|'Gt', a_tree, b_tree) or ('truthy', tree, bool)"""
     if cond[0] == "discr":
+        inner = cond[1]
+        if inner[0] == "call" and inner[1][1] == "checked_sub" and len(inner[2]) == 2 and not inner[3]:
+            some = value == "1" or (isinstance(value, tuple) and value[0] == "not" and "0" in value[1])
+            none = value == "0" or (isinstance(value, tuple) and value[0] == "not" and "1" in value[1])
+            if some:
+                return [("Ge", inner[2][0], inner[2][1]), ("variant", inner, value)]
+            if none:
+                return [("Lt", inner[2][0], inner[2][1]), ("variant", inner, value)]
         return [("variant", cond[1], value)]
     truth = None
     if value == "0":
@@ -256,7 +327,12 @@ def normalise_guard(cond, value):
             truth = True
         elif value[1] == ("1",):
             truth = False
-    if truth is None:
+    if truth is None or dty != "bool":
+        # integer-valued switch: arm v means cond == v, otherwise means cond != each listed value
+        if isinstance(value, str) and value.lstrip("-").isdigit():
+            return [("Eq", cond, ("const", value))]
+        if isinstance(value, tuple) and value[0] == "not":
+            return [("Ne", cond, ("const", v)) for v in value[1]]
         return [("switch", cond, value)]
     t = cond
     # peel Not
@@ -275,8 +351,8 @@ def normalise_guard(cond, value):
 
 def facts_at(ctx, bb):
     out = []
-    for (cond, val, d) in guards(ctx, bb):
-        for f in normalise_guard(cond, val):
+    for (cond, val, d, dty) in guards(ctx, bb):
+        for f in normalise_guard(cond, val, dty):
             out.append(f + (d,))
     return out
 
@@ -338,3 +414,209 @@ def show(t, depth=0):
     if k == "phi":
         return "phi(%s)" % ", ".join(show(a, depth + 1) for a in t[1])
     return str(t)
+
+
+# ---------------------------------------------------------------------------------------------
+# semantic value alternatives: Option/Result combinators, `?`, match and if-let all normalise to
+# the same set of alternatives {Some(f(payload)), None, Ok(..), Err(..)}
+
+NONE = ("none",)
+
+
+def closure_key(t):
+    if t[0] == "agg" and isinstance(t[1], str) and t[1].startswith("closure:"):
+        return t[1][len("closure:"):]
+    return None
+
+
+def _fnitem_tag(s):
+    """callee tag of a function item named by a constant's display string"""
+    import re
+    s2 = re.sub(r"::<[^<>]*(<[^<>]*>[^<>]*)*>", "", s)
+    m = re.match(r"^<.* as (.*)>::([A-Za-z_0-9]+)$", s2.strip())
+    if m:
+        tr = re.sub(r"<.*$", "", m.group(1)).split("::")[-1]
+        return (tr, m.group(2))
+    segs = [x for x in re.sub(r"<[^<>]*>", "", s2).split("::") if x]
+    if len(segs) >= 2:
+        return (segs[-2].strip("<>"), segs[-1])
+    return ("fn", segs[-1] if segs else s)
+
+
+def apply_fn(facts, f, args, depth=0):
+    """result alternatives of calling function-like tree f (closure aggregate or fn item) on
+    argument trees"""
+    ck = closure_key(f)
+    if ck is not None and depth < 8:
+        cb = facts.body(ck)
+        if cb is not None:
+            from core import Ctx as _Ctx
+            cc = _Ctx(cb)
+            out = set()
+            for o in cc.org.local(0):
+                t = tree(cc, o)
+                out.add(subst_closure(t, cb.key, f[2], args))
+            res = set()
+            for t in out:
+                res |= expand(facts, t, depth + 1)
+            return res
+    if f[0] == "const":
+        return {("call", _fnitem_tag(f[1]), tuple(args), (), None)}
+    return {("call", ("?", "apply"), (f,) + tuple(args), (), None)}
+
+
+def subst_closure(t, key, captured, args):
+    """rewrite a tree expressed over the closure body's own arguments (arg1 = environment,
+    arg2.. = parameters) into the caller's terms"""
+    if not isinstance(t, tuple) or not t:
+        return t
+    if t[0] == "place" and t[1] == key:
+        r, p = t[2], tuple(t[3])
+        if r == ("arg", 1):
+            if p and p[0].startswith("u:"):
+                k = int(p[0][2:])
+                if k < len(captured):
+                    return tproj(captured[k], p[1:])
+            return t
+        if r[0] == "arg" and r[1] >= 2 and r[1] - 2 < len(args):
+            return tproj(args[r[1] - 2], p)
+        return t
+    if t[0] == "call":
+        return ("call", t[1], tuple(subst_closure(x, key, captured, args) for x in t[2]), t[3], t[4])
+    return tuple(subst_closure(x, key, captured, args) if isinstance(x, tuple) else x for x in t)
+
+
+def is_agg(t, name):
+    return t[0] == "agg" and t[1] == name
+
+
+def expand(facts, t, depth=0):
+    """set of alternative values a tree may denote, with Option/Result combinators applied"""
+    if depth > 10 or not isinstance(t, tuple) or not t:
+        return {t}
+    k = t[0]
+    if k == "phi":
+        out = set()
+        for x in t[1]:
+            out |= expand(facts, x, depth + 1)
+        return out
+    if k == "agg":
+        if t[1] == "Option::None":
+            return {NONE}
+        if t[1].startswith("closure:") or not t[2]:
+            return {t}
+        # alternatives of the operands (bounded product)
+        opts = [sorted(expand(facts, op, depth + 1), key=repr) for op in t[2]]
+        total = 1
+        for o in opts:
+            total *= len(o)
+        if total == 1 or total > 16:
+            if total == 1:
+                return {("agg", t[1], tuple(o[0] for o in opts), t[3])}
+            return {t}
+        import itertools
+        return {("agg", t[1], tuple(c), t[3]) for c in itertools.product(*opts)}
+    if k != "call":
+        return {t}
+    tag = t[1]
+    a = t[2]
+    if t[3]:
+        base = expand(facts, ("call", t[1], t[2], (), t[4]), depth + 1)
+        if base == {("call", t[1], t[2], (), t[4])}:
+            return {t}
+        out = set()
+        for x in base:
+            if x == NONE:
+                continue
+            if isinstance(x, tuple) and x and x[0] in ("first", "second"):
+                x = x[1]
+                if x == NONE:
+                    continue
+            out.add(tproj(x, t[3]))
+        return out or {t}
+    if tag in (("FromResidual", "from_residual"),):
+        return {NONE}
+    if tag in (("Option", "map"), ("Option", "and_then")) and len(a) == 2:
+        out = set()
+        for x in expand(facts, a[0], depth + 1):
+            if x == NONE:
+                out.add(NONE)
+                continue
+            p = x[2][0] if is_agg(x, "Option::Some") else tproj(x, ("v:Some", "f:0"))
+            for r in apply_fn(facts, a[1], [p], depth + 1):
+                if tag[1] == "map":
+                    out.add(("agg", "Option::Some", (r,), ()))
+                else:
+                    out |= expand(facts, r, depth + 1)
+            if not is_agg(x, "Option::Some"):
+                out.add(NONE)
+        return out
+    if tag == ("Option", "or_else") and len(a) == 2:
+        out = set()
+        some = False
+        for x in expand(facts, a[0], depth + 1):
+            if x == NONE:
+                continue
+            out.add(("first", x))
+        for r in apply_fn(facts, a[1], [], depth + 1):
+            for y in expand(facts, r, depth + 1):
+                out.add(("second", y))
+        return out
+    if tag in (("Result", "map"), ("Result", "map_err")) and len(a) == 2:
+        out = set()
+        for x in expand(facts, a[0], depth + 1):
+            oks = [x[2][0]] if is_agg(x, "Result::Ok") else ([] if is_agg(x, "Result::Err") else [tproj(x, ("v:Ok", "f:0"))])
+            errs = [x[2][0]] if is_agg(x, "Result::Err") else ([] if is_agg(x, "Result::Ok") else [tproj(x, ("v:Err", "f:0"))])
+            for p in oks:
+                if tag[1] == "map":
+                    for r in apply_fn(facts, a[1], [p], depth + 1):
+                        out.add(("agg", "Result::Ok", (r,), ()))
+                else:
+                    out.add(("agg", "Result::Ok", (p,), ()))
+            for p in errs:
+                if tag[1] == "map_err":
+                    for r in apply_fn(facts, a[1], [p], depth + 1):
+                        out.add(("agg", "Result::Err", (r,), ()))
+                else:
+                    out.add(("agg", "Result::Err", (p,), ()))
+        return out
+    if tag in (("Result", "map_or_else"), ("Option", "map_or_else")) and len(a) == 3:
+        out = set()
+        for x in expand(facts, a[0], depth + 1):
+            if tag[0] == "Result":
+                for r in apply_fn(facts, a[1], [tproj(x, ("v:Err", "f:0"))], depth + 1):
+                    out.add(r)
+            else:
+                for r in apply_fn(facts, a[1], [], depth + 1):
+                    out.add(r)
+            pay = ("v:Ok", "f:0") if tag[0] == "Result" else ("v:Some", "f:0")
+            for r in apply_fn(facts, a[2], [tproj(x, pay)], depth + 1):
+                out.add(r)
+        return out
+    if tag in (("Option", "unwrap_or"),) and len(a) == 2:
+        out = set()
+        for x in expand(facts, a[0], depth + 1):
+            if x == NONE:
+                continue
+            out.add(x[2][0] if is_agg(x, "Option::Some") else tproj(x, ("v:Some", "f:0")))
+        out.add(a[1])
+        return out
+    return {t}
+
+
+def ret_alts(ctx):
+    """semantic alternatives of the function's return value"""
+    facts = ctx.body.facts
+    out = set()
+    for o in ctx.org.local(0):
+        out |= expand(facts, tree(ctx, o))
+    return out
+
+
+def nobb(t):
+    """drop block ids from call nodes (for structural comparison)"""
+    if isinstance(t, tuple):
+        if t and t[0] == "call" and len(t) == 5:
+            return ("call", t[1], tuple(nobb(x) for x in t[2]), t[3])
+        return tuple(nobb(x) for x in t)
+    return t
